@@ -115,8 +115,17 @@ func withEnvSweep(cfg *Config, fams []Family) []Family {
 		}()
 		for fi := range src {
 			f := &src[fi]
-			for j := 0; j < f.Env; j++ {
+			// small families (N <= 2*Env) run completely under every setting, so that their largest cases meet every
+			// setting in every run; of larger ones Env cases are drawn
+			n := f.Env
+			if f.N <= 2*f.Env {
+				n = f.N
+			}
+			for j := 0; j < n; j++ {
 				sub := w.Rng.Intn(f.N)
+				if f.N <= 2*f.Env {
+					sub = j
+				}
 				outer := *w.Rng
 				w.Rng.Reseed(w.Cfg.Seed, w.Cfg.Prop, f.Name+"@"+s.name, sub)
 				w.Bucket("env/" + s.name)
